@@ -581,10 +581,21 @@ class SymExec(object):
                 for k_, v_ in reversed(f[1][1]):
                     out_ = ('ifexp', ('cmp', '==', args[0], k_), v_, out_)
                 return out_
+            if f[0] == 'attr' and f[2] == 'get' and f[1][0] == 'dictcomp' and len(args) == 1 and not kws:
+                # D.get(k) with the `is None` test that follows it is the spelling of `k in D` / D[k]  (logic.formula reads
+                # `D[k] is None` on a comprehension-built D as `k not in D`)
+                return ('sub', f[1], args[0])
             if f[0] == 'attr' and f[2] == 'format' and f[1][0] == 'const' and isinstance(f[1][1], str):
                 ft = format_call(f[1][1], tuple(args), kws)
                 if ft is not None:
                     return ft
+            if f[0] == 'attr' and f[2] in ('append', 'extend') and isinstance(n.func, ast.Attribute) and isinstance(n.func.value, ast.Name) \
+                    and f[1][0] == 'list' and len(args) == 1 and not kws and not self._guard:
+                # a list display bound to a local keeps growing: its later value is the display with the new element(s)
+                if f[2] == 'append':
+                    st.env[n.func.value.id] = ('list', f[1][1] + (args[0],))
+                elif args[0][0] in ('list', 'tuple'):
+                    st.env[n.func.value.id] = ('list', f[1][1] + tuple(args[0][1]))
             ev_ = ('call', t, n)
             st.events.append(ev_)
             if self._guard:
@@ -1395,11 +1406,36 @@ class SymExec(object):
                     continue
                 return False
             return True
+
+        def dict_shape(stmts, top=True):
+            # the same, for  acc[key] = value  into a dictionary that is still empty
+            for x in stmts:
+                if isinstance(x, ast.Assign) and len(x.targets) == 1 and isinstance(x.targets[0], ast.Subscript) \
+                        and isinstance(x.targets[0].value, ast.Name):
+                    accs.add(x.targets[0].value.id)
+                    continue
+                if isinstance(x, ast.Assign) and all(isinstance(t, ast.Name) or (isinstance(t, ast.Tuple) and all(isinstance(e, ast.Name) for e in t.elts))
+                                                     for t in x.targets):
+                    continue
+                if isinstance(x, ast.AnnAssign) and isinstance(x.target, ast.Name):
+                    continue
+                if isinstance(x, ast.If):
+                    if not dict_shape(x.body, False) or not dict_shape(x.orelse, False):
+                        return False
+                    continue
+                if isinstance(x, (ast.Pass, ast.Continue)) or (isinstance(x, ast.Expr) and isinstance(x.value, ast.Constant)):
+                    continue
+                return False
+            return True
+        is_dict = False
         if not shape(s.body) or len(accs) != 1:
-            return False
+            accs.clear()
+            if not dict_shape(s.body) or len(accs) != 1:
+                return False
+            is_dict = True
         acc = next(iter(accs))
         cur = st.env.get(acc)
-        if not (cur is not None and cur[0] == 'alloc' and cur[1] == 'list'):
+        if not (cur is not None and cur[0] == 'alloc' and cur[1] == ('dict' if is_dict else 'list')):
             return False
         for e in st.events:       # the list must still be empty and unshared
             for x in e[1:-1]:
@@ -1410,6 +1446,10 @@ class SymExec(object):
         assigned = {n.id for x in ast.walk(s) for n in ast.walk(x) if isinstance(n, ast.Name) and isinstance(n.ctx, ast.Store)}
         if acc in assigned:
             return False
+        if is_dict and any(isinstance(n, ast.Name) and n.id == acc and isinstance(n.ctx, ast.Load) and
+                           not (isinstance(getattr(n, '_parent', None), ast.Subscript) and isinstance(n._parent.ctx, ast.Store))
+                           for n in ast.walk(s)):
+            return False        # the loop also reads the dictionary it fills
         sub = st.copy()
         it = self.ev(s.iter, sub)
         self.bind(s.target, ('elem', it, s.iter.lineno), sub, s)
@@ -1419,6 +1459,12 @@ class SymExec(object):
             sub.env = env
             while stmts:
                 x = stmts.pop(0)
+                if is_dict and isinstance(x, ast.Assign) and isinstance(x.targets[0], ast.Subscript):
+                    v = ('pair', self.ev(x.targets[0].slice, sub), self.ev(x.value, sub))
+                    rest = walk(stmts, sub.env)
+                    if rest is not SKIP:
+                        return None         # more than one store per iteration
+                    return ('leaf', v)
                 if isinstance(x, ast.Assign):
                     v = self.ev(x.value, sub)
                     for t in x.targets:
@@ -1474,7 +1520,12 @@ class SymExec(object):
         for e in sub.events[mark:]:
             st.events.append(('in-comp',) + tuple(e))
         st.data = sub.data
-        st.env[acc] = mk_comp('listcomp', r[1], ((it, tuple(r[0])),))
+        if is_dict:
+            if r[1][0] != 'pair':
+                return False
+            st.env[acc] = ('dictcomp', r[1][1], r[1][2], ((it, tuple(r[0])),))
+        else:
+            st.env[acc] = mk_comp('listcomp', r[1], ((it, tuple(r[0])),))
         st.events.append(('loop-folded', it, st.env[acc], s))
         return True
 
